@@ -340,6 +340,14 @@ impl Terminal {
         }
     }
 
+    /// The alternate screen keeps no scrollback and its trimmed lines are never handed out,
+    /// so they can be dropped without a `Changes` value to return them in.
+    pub fn gc_alternate(&mut self) {
+        if self.active_buffer_type == BufferType::Alternate {
+            drop(self.buffer.gc());
+        }
+    }
+
     pub fn changes(&mut self) -> Vec<usize> {
         let changes = self.dirty_lines.to_vec();
         self.dirty_lines.clear();
